@@ -50,6 +50,7 @@ func c12(tier string) int {
 		{"create-vs-get", "I:Sa|Ea|Ga"},
 		{"create-empty-writes-vs-get", "I:Sa|Fa|Ga.K"},
 		{"two-creates", "Ea|Fa"},
+		{"create-empty-key-vs-get", "I:Sa|C|Ga"},
 		{"create-in-rc-tx-vs-ru-reader", "I:b01|c0|Eb|b10.g1b.r1"},
 	} {
 		pb := b
